@@ -254,7 +254,7 @@ func c20Scenario(l *Lab, rep *Report, w *c20World, name string, si int) {
 		} else if canReply && rq.realm != "NOPE.TEST" {
 			rep.Violate("C20/no-reply-relayed/"+name, fmt.Sprintf("realm %q has a KDC that replies, but the proxy answered %d", realm, r.Status), detail)
 		}
-		if id%9 == 0 {
+		if len(rq.payload)%7 == 0 || rq.realm == "OTHER.TEST" {
 			rep.Sample(detail)
 		}
 	}
